@@ -17,6 +17,8 @@ pub trait Backend {
     /// `"target"`, `"published"`, `"subscribe"`, `"unsubscribe"`); `arg` is the context id of the
     /// subscriber concerned (0 if none)
     fn broker(&self, _ctx: u64, _what: &'static str, _arg: u64) {}
+    /// the publication the broker with context `ctx` is about to fan out
+    fn broker_msg(&self, _ctx: u64, _msg: &dyn std::any::Any) {}
 }
 
 thread_local! { static BACKEND: RefCell<Option<Rc<dyn Backend>>> = const { RefCell::new(None) }; }
@@ -50,6 +52,11 @@ pub(crate) fn dequeued<A>(ctx: crate::context::ContextID, payload: Option<&crate
     }
 }
 
+pub(crate) fn broker_msg(ctx: crate::context::ContextID, msg: &dyn std::any::Any) {
+    if let Some(b) = backend() {
+        b.broker_msg(ctx.raw(), msg);
+    }
+}
 pub(crate) fn broker(ctx: crate::context::ContextID, what: &'static str, arg: u64) {
     if let Some(b) = backend() {
         b.broker(ctx.raw(), what, arg);
